@@ -44,6 +44,11 @@ def run(repo, rep, tier):
     _table(repo, rep)
     _order(repo, rep)
     _mode(repo, rep)
+    # HTML documents: CRLF and lone CR become LF, for bytes, str and files
+    # alike (C03 owns the rewrite)
+    from . import c03 as _c03
+    L.borrow(repo, rep, "R17.3", "C03", _c03._newlines,
+             ("newline-rewrite", "newline-guard"), minimum=2)
     L.state_rule(repo, rep)
 
 
@@ -54,6 +59,20 @@ def _table(repo, rep):
     rep.check(isinstance(rows, tuple) and len(rows) >= 5, "R17.2", site,
               "the BOM table folds to constants", construct="table",
               detail=str(rows)[:120])
+    # the table serves two look-ups: by byte-order mark, and -- for a
+    # document without one -- by the encoded '<?xml' prefix of each
+    # encoding; it therefore has a row for every encoding form of UTF-8 /
+    # UTF-16 / UTF-32 (native and both byte orders), also where two marks
+    # coincide on this machine
+    import codecs as _codecs
+    have = {enc for bom, enc in rows} if isinstance(rows, tuple) else set()
+    need = {"utf-8-sig", "utf-16", "utf-16-le", "utf-16-be", "utf-32",
+            "utf-32-le", "utf-32-be"}
+    rep.check(need <= have, "R17.2", site, "the table has a row for each of "
+              "the seven Unicode encoding forms (a UTF-16-LE document "
+              "without a mark is recognised by its encoded '<?xml')",
+              construct="table-rows", detail="missing: %s" % sorted(
+                  need - have))
     # iteration order used by read_bytes: _xml_prefixes
     px = m.assigns.get("_xml_prefixes")
     if not px:
